@@ -177,18 +177,31 @@ class Program:
         from kfv import localnames
         from kfv import normalize
         from kfv import inline as _inl
+        import copy as _copy
+
+        def safely(what: str, mods: list, fn) -> None:  # noqa: ANN001
+            """A normaliser step that fails leaves the trees as they were (the rules then see the code as written)."""
+            backup = {m.name: _copy.deepcopy(m.tree) for m in mods}
+            try:
+                fn()
+            except Exception as e:  # noqa: BLE001
+                for m in mods:
+                    m.tree = backup[m.name]
+                self.normalized.append(f'normaliser step {what} failed and was skipped: {type(e).__name__}: {e}')
+        allm = list(self.modules.values())
         nlogp: list[str] = []
-        localnames.restore_private_names({rel: m.tree for rel, m in self.modules.items()}, _inl.known_functions(), nlogp)
+        safely('private-names', allm, lambda: localnames.restore_private_names({rel: m.tree for rel, m in self.modules.items()}, _inl.known_functions(), nlogp))
         self.normalized += nlogp
-        localnames.set_signatures([m.tree for m in self.modules.values()])
+        localnames.set_signatures([m.tree for m in allm])
         for rel, mod in self.modules.items():
             nlog0: list[str] = []
-            localnames.restore(mod.tree, rel, nlog0)
+            safely(f'inventory-shapes[{rel}]', [mod], lambda: localnames.restore(mod.tree, rel, nlog0))  # noqa: B023
             self.normalized += nlog0
-        mutable = normalize.mutable_attrs([m.tree for m in self.modules.values()])
+        mutable = normalize.mutable_attrs([m.tree for m in allm])
         for rel, mod in self.modules.items():
-            _tree, nlog = normalize.run(mod.tree, mutable)
-            self.normalized += [f'{rel}: {x}' for x in nlog]
+            nlog1: list[str] = []
+            safely(f'structural[{rel}]', [mod], lambda: nlog1.extend(normalize.run(mod.tree, mutable)[1]))  # noqa: B023
+            self.normalized += [f'{rel}: {x}' for x in nlog1]
             for p in ast.walk(mod.tree):
                 for c in ast.iter_child_nodes(p):
                     mod.parents[id(c)] = p
